@@ -37,7 +37,7 @@ def main():
 
             def prof(q, node):
                 a = node.args
-                profiles[q] = {'nargs': len(a.posonlyargs + a.args + a.kwonlyargs), 'async': isinstance(node, ast.AsyncFunctionDef), 'gen': any(isinstance(x, (ast.Yield, ast.YieldFrom)) for x in ast.walk(node)), 'size': sum(1 for _ in ast.walk(node)), 'tokens': fingerprint(node)}
+                profiles[q] = {'params': [x.arg for x in a.posonlyargs + a.args + a.kwonlyargs], 'pshape': [len(a.posonlyargs), len(a.args), len(a.kwonlyargs), bool(a.vararg), bool(a.kwarg)], 'nargs': len(a.posonlyargs + a.args + a.kwonlyargs), 'async': isinstance(node, ast.AsyncFunctionDef), 'gen': any(isinstance(x, (ast.Yield, ast.YieldFrom)) for x in ast.walk(node)), 'size': sum(1 for _ in ast.walk(node)), 'tokens': fingerprint(node)}
 
             def rec(body, prefix, in_class):
                 for st in body:
